@@ -2,7 +2,6 @@ package rules
 
 import (
 	"fmt"
-	"go/token"
 	"go/types"
 	"sort"
 	"strings"
@@ -329,14 +328,14 @@ func (x *c16) cborRow(k int64, h *ssa.Function, e *c16Eval, tableFn *ssa.Functio
 		if cl == nil {
 			return "element closure unresolvable"
 		}
-		loop, why := c16CountedLoop(cl)
-		if loop == nil {
-			return "element loop: " + why
+		m := x.cborElemLoop(cl, h)
+		if m.RowMsg != "" {
+			return m.RowMsg
 		}
-		if loop.Start != 0 || loop.Step != 1 || !loop.Strict || !e.lin(loop.Bound).eq(count) {
-			return fmt.Sprintf("definite loop is not i = 0; i < count; i++ (start %d step %d strict %v bound %s)", loop.Start, loop.Step, loop.Strict, e.lin(loop.Bound))
+		if m.Undecided != "" {
+			return "element loop: " + m.Undecided
 		}
-		return x.perIteration(loop.Body, e, k == 5, tableFn)
+		return x.perIteration(m.Body, e, k == 5, tableFn)
 	case 6:
 		vs := c16Find(ops, "ValUint")
 		if len(vs) != 1 || !argIs(vs[0], 1, count) {
@@ -467,38 +466,27 @@ func (x *c16) cborIndef(ri *fw.Rule, k int64, h *ssa.Function) {
 		ri.Undecided(key+":loop", x.p.Rel(h.Pos()), "no element/chunk closure")
 		return
 	}
-	// break marker comparison present
-	brk := false
-	fw.EachInstr(cl, func(ins ssa.Instruction) {
-		bo, ok := ins.(*ssa.BinOp)
-		if !ok || (bo.Op != token.EQL && bo.Op != token.NEQ) {
-			return
-		}
-		c, isC := c16ConstInt(bo.Y)
-		call, isCall := bo.X.(*ssa.Call)
-		if isC && isCall && c == c16CborBreak {
-			if o, ok := x.op(call, newC16Eval()); ok && o.Kind == "Peek" && len(o.Args) > 0 {
-				if w, ok := c16ConstInt(o.Args[0]); ok && w == 8 {
+	if k < 4 {
+		// chunk loop of a string: runs until the break marker
+		brk := false
+		isNone := func(ssa.Value) bool { return false }
+		fw.EachInstr(cl, func(ins ssa.Instruction) {
+			if v, ok := ins.(ssa.Value); ok {
+				if kind, _ := x.cborAtom(v, isNone, isNone); kind == "brk" {
 					brk = true
 				}
 			}
-		}
-	})
-	ri.Check(brk, key+":break-test", x.p.Rel(cl.Pos()), "loop peeks 8 bits against 0xff", "element loop does not test the next byte against the 0xff break marker")
-	if k >= 4 {
-		loop, _ := c16CountedLoop(cl)
-		if loop == nil {
-			ri.Undecided(key+":count-not-bound", x.p.Rel(cl.Pos()), "counted loop not found")
-			return
-		}
-		cfl := c16Facts(cl, nil)
-		guarded := true
-		for _, fs := range cfl.At(loop.Cmp.Block()) {
-			if !fs.knowsNe(c16Origin(sc), c16CborIndef) {
-				// origin of the captured shortCount is the handler parameter
-				guarded = false
-			}
-		}
-		ri.Check(guarded, key+":count-not-bound", x.p.Rel(loop.Cmp.Pos()), "count bounds the loop only for definite lengths", "the `i >= count` exit is reachable when shortCount == 31 (count is then 31): indefinite-length containers are cut off after 31 elements")
+		})
+		ri.Check(brk, key+":break-test", x.p.Rel(cl.Pos()), "loop peeks 8 bits against 0xff", "element loop does not test the next byte against the 0xff break marker")
+		return
 	}
+	m := x.cborElemLoop(cl, h)
+	mpos := x.p.Rel(m.Pos)
+	if m.Undecided != "" {
+		ri.Undecided(key+":break-test", mpos, m.Undecided)
+		ri.Undecided(key+":count-not-bound", mpos, m.Undecided)
+		return
+	}
+	ri.Check(m.BreakTest, key+":break-test", mpos, "the indefinite form continues until the next byte is 0xff", "element loop does not test the next byte against the 0xff break marker when shortCount == 31")
+	ri.Check(m.CountGuarded, key+":count-not-bound", mpos, "count bounds the loop only for definite lengths", m.GuardMsg)
 }
